@@ -36,6 +36,7 @@ type EntryPoint struct {
 	registered         bool
 	namesPosition      bool // msg: a position record not keyed by the signer is read
 	readsPos           bool // reaches a position getter at all (transitively, by name resolution)
+	posWrites          bool // reaches a setter / deleter of a vault, stable-mint vault, locker, lend or borrow record
 	writes             bool
 	target             string
 	file               string
@@ -196,6 +197,23 @@ func reachesPosGetter(fi *FuncInfo) bool {
 	return false
 }
 
+var posSetters = map[string]bool{
+	"SetVault": true, "DeleteVault": true, "SetStableMintVault": true, "SetLocker": true, "DeleteLocker": true,
+	"SetLend": true, "DeleteLend": true, "SetBorrow": true, "DeleteBorrow": true,
+}
+
+func reachesPosSetter(fi *FuncInfo) bool {
+	if posSetters[fi.key.name] {
+		return true
+	}
+	for k := range reach(fi) {
+		if posSetters[k.name] {
+			return true
+		}
+	}
+	return false
+}
+
 func modOfPkg(pkg string) string {
 	p := strings.Split(pkg, "/")
 	if len(p) >= 2 {
@@ -208,7 +226,7 @@ func tname(fi *FuncInfo) string { return modOfPkg(fi.key.pkg) + "." + fi.key.nam
 
 // facts about a module-level function: does it (transitively) write, which keeper functions it calls directly
 type modFacts struct {
-	writes, readsPos bool
+	writes, readsPos, posWrites bool
 	callees          []*FuncInfo
 }
 
@@ -235,11 +253,15 @@ func factsOfMod(m string, fd *ast.FuncDecl, seen map[*ast.FuncDecl]bool) modFact
 			if reachesPosGetter(fi) {
 				out.readsPos = true
 			}
+			if reachesPosSetter(fi) {
+				out.posWrites = true
+			}
 		}
 		if g != nil {
 			sub := factsOfMod(m, g, seen)
 			out.writes = out.writes || sub.writes
 			out.readsPos = out.readsPos || sub.readsPos
+			out.posWrites = out.posWrites || sub.posWrites
 			out.callees = append(out.callees, sub.callees...)
 		}
 		return true
@@ -373,6 +395,7 @@ type Proposal struct {
 	module, ctor, content, keeperFn string
 	targets                         []string
 	routed, writes, readsPos        bool
+	posWrites                       bool
 	otherCallers                    []string
 	file                            string
 	line                            int
@@ -488,6 +511,7 @@ func extractProposals(mods []string, wire appWiring) []Proposal {
 						p.keeperFn = tname(kfi)
 						p.writes = writes(kfi)
 						p.readsPos = reachesPosGetter(kfi)
+						p.posWrites = reachesPosSetter(kfi)
 						seen := map[string]bool{}
 						for _, c := range callsIn(kfi.decl.Body) {
 							if g := resolve(c, kfi); g != nil && writes(g) && !seen[tname(g)] {
@@ -690,6 +714,7 @@ func extractEntryPoints(hs []Handler, ws []WasmHandler) ([]EntryPoint, []PrivTar
 			}
 			if fi := index[FuncKey{"x/" + mm[0] + "/keeper", "msgServer", mm[1]}]; fi != nil {
 				e.writes = e.writes || writes(fi)
+				e.posWrites = reachesPosSetter(fi)
 			}
 		}
 		eps = append(eps, e)
@@ -699,7 +724,7 @@ func extractEntryPoints(hs []Handler, ws []WasmHandler) ([]EntryPoint, []PrivTar
 	props := extractProposals(allModules, wire)
 	for _, p := range props {
 		e := EntryPoint{kind: "proposal", module: p.module, name: p.content, caller: "gov", via: p.ctor, registered: p.routed,
-			readsPos: p.readsPos, writes: p.writes, target: p.keeperFn, file: p.file, line: p.line}
+			readsPos: p.readsPos, posWrites: p.posWrites, writes: p.writes, target: p.keeperFn, file: p.file, line: p.line}
 		if !p.routed {
 			e.caller = "none"
 		}
@@ -727,6 +752,7 @@ func extractEntryPoints(hs []Handler, ws []WasmHandler) ([]EntryPoint, []PrivTar
 			tn = append(tn, tname(t))
 			e.writes = e.writes || writes(t)
 			e.readsPos = e.readsPos || reachesPosGetter(t)
+			e.posWrites = e.posWrites || reachesPosSetter(t)
 		}
 		e.target = strings.Join(tn, ",")
 		eps = append(eps, e)
@@ -758,7 +784,7 @@ func extractEntryPoints(hs []Handler, ws []WasmHandler) ([]EntryPoint, []PrivTar
 				e.caller = "none"
 			}
 			f := factsOfMod(m, fd, map[*ast.FuncDecl]bool{})
-			e.writes, e.readsPos = f.writes, f.readsPos
+			e.writes, e.readsPos, e.posWrites = f.writes, f.readsPos, f.posWrites
 			eps = append(eps, e)
 		}
 	}
@@ -889,7 +915,7 @@ func strList(xs []string) string {
 }
 
 func writeEntryTables(b *strings.Builder, eps []EntryPoint, pts []PrivTarget, pb [][2]string, props []Proposal, ibc []IbcCallback) {
-	b.WriteString("structure EntryPoint where\n  kind : String\n  module : String\n  name : String\n  caller : String\n  via : String\n  registered : Bool\n  namesPosition : Bool\n  readsPos : Bool\n  writes : Bool\n  target : String\n  file : String\n  line : Nat\n  deriving Repr\n\n")
+	b.WriteString("structure EntryPoint where\n  kind : String\n  module : String\n  name : String\n  caller : String\n  via : String\n  registered : Bool\n  namesPosition : Bool\n  readsPos : Bool\n  posWrites : Bool\n  writes : Bool\n  target : String\n  file : String\n  line : Nat\n  deriving Repr\n\n")
 	b.WriteString("structure PrivTarget where\n  target : String\n  sources : List String\n  msgReach : List String\n  writes : Bool\n  deriving Repr\n\n")
 	b.WriteString("structure Proposal where\n  module : String\n  ctor : String\n  content : String\n  keeperFn : String\n  targets : List String\n  routed : Bool\n  writes : Bool\n  otherCallers : List String\n  line : Nat\n  deriving Repr\n\n")
 	b.WriteString("structure IbcCallback where\n  module : String\n  name : String\n  guard : String\n  writes : Bool\n  guardFirst : Bool\n  line : Nat\n  deriving Repr\n\n")
@@ -907,8 +933,8 @@ func writeEntryTables(b *strings.Builder, eps []EntryPoint, pts []PrivTarget, pb
 		if i == len(eps)-1 {
 			sep = ""
 		}
-		fmt.Fprintf(b, "  { kind := %s, module := %s, name := %s, caller := %s, via := %s, registered := %s, namesPosition := %s, readsPos := %s, writes := %s, target := %s, file := %s, line := %d }%s\n",
-			q(e.kind), q(e.module), q(e.name), q(e.caller), q(e.via), bl(e.registered), bl(e.namesPosition), bl(e.readsPos), bl(e.writes), q(e.target), q(e.file), e.line, sep)
+		fmt.Fprintf(b, "  { kind := %s, module := %s, name := %s, caller := %s, via := %s, registered := %s, namesPosition := %s, readsPos := %s, posWrites := %s, writes := %s, target := %s, file := %s, line := %d }%s\n",
+			q(e.kind), q(e.module), q(e.name), q(e.caller), q(e.via), bl(e.registered), bl(e.namesPosition), bl(e.readsPos), bl(e.posWrites), bl(e.writes), q(e.target), q(e.file), e.line, sep)
 	}
 	b.WriteString("]\n\n")
 	b.WriteString("def proposals : List Proposal := [\n")
